@@ -139,3 +139,49 @@ Proof. cbv zeta. split; [|split]; try (vm_compute; reflexivity). repeat construc
        repeat split; vm_compute; reflexivity. Qed.
 Goal True. idtac "ASSUMPTIONS-OF C05_example_fixed_item". Abort.
 Print Assumptions C05_example_fixed_item.
+
+(* FIXED FORM, WHOLE FILES.  A fixed-form source that is a sequence of statements -- each an initial
+   line (label field, column 6, statement field with an optional construct name) followed by any
+   number of continuation lines and comment lines -- is delivered as exactly one item per statement,
+   in order: the joined statement fields, the label, the construct name, the exact span; the comment
+   lines after a statement come right after it when comments are kept and are invisible when they are
+   ignored.  Any number of statements and lines; the reader's one-line look-ahead (push-back buffer) is
+   an invariant of the proof. *)
+From FV Require Import FixedFile.
+Theorem C05_fixed_whole_file_each_statement_once_in_order_partial :
+  forall ign x xs, Forall fgoods (x :: xs) ->
+    read_source (flat_map f_phys (x :: xs)) false false ign = file_items ign (x :: xs) 0.
+Proof. exact read_source_fixed. Qed.
+Goal True. idtac "ASSUMPTIONS-OF C05_fixed_whole_file_each_statement_once_in_order_partial". Abort.
+Print Assumptions C05_fixed_whole_file_each_statement_once_in_order_partial.
+
+(* hypotheses met; and the statements are those of the free-form source with the same pieces *)
+Definition ex_fixed : list fstmt :=
+  [mkF (s2t "   10") " "%char (s2t "x = a") None (s2t "x = a") [FCont (s2t "     1 + b"); FCom (s2t "C note"); FCont (s2t "     & * c")];
+   mkF (s2t "     ") " "%char (s2t "lp: do i = 1, 3") (Some (s2t "lp")) (s2t "do i = 1, 3") [FCom (s2t "* after")];
+   mkF (s2t "     ") " "%char (s2t "end do lp") None (s2t "end do lp") []].
+Example C05_example_fixed_file :
+  Forall fgoods ex_fixed /\
+  flat_map f_phys ex_fixed = [s2t "   10 x = a"; s2t "     1 + b"; s2t "C note"; s2t "     & * c";
+                              s2t "      lp: do i = 1, 3"; s2t "* after"; s2t "      end do lp"] /\
+  file_items false ex_fixed 0 = [RLine (s2t "x = a + b * c") (Some 10%N) None 1 4; RComment (s2t "C note") 3 3 false;
+                                 RLine (s2t "do i = 1, 3") None (Some (s2t "lp")) 5 5; RComment (s2t "* after") 6 6 false;
+                                 RLine (s2t "end do lp") None None 7 7] /\
+  file_items true ex_fixed 0 = [RLine (s2t "x = a + b * c") (Some 10%N) None 1 4;
+                                RLine (s2t "do i = 1, 3") None (Some (s2t "lp")) 5 5;
+                                RLine (s2t "end do lp") None None 7 7] /\
+  read_source [s2t "10 x = a&"; s2t "  & + b&"; s2t "! note"; s2t " & * c"; s2t "lp: do i = 1, 3"; s2t "end do lp"] true false true
+  = [RLine (s2t "x = a + b * c") (Some 10%N) None 1 4; RLine (s2t "do i = 1, 3") None (Some (s2t "lp")) 5 5;
+     RLine (s2t "end do lp") None None 6 6].
+Proof.
+  split; [|split; [|split; [|split]]].
+  2-5: vm_compute; reflexivity.
+  repeat (apply Forall_cons || apply Forall_nil); unfold fgoods; repeat split;
+    lazymatch goal with
+    | |- _ <> _ => vm_compute; discriminate
+    | |- Forall _ _ => repeat constructor; vm_compute; reflexivity
+    | |- _ => vm_compute; reflexivity
+    end.
+Qed.
+Goal True. idtac "ASSUMPTIONS-OF C05_example_fixed_file". Abort.
+Print Assumptions C05_example_fixed_file.
